@@ -185,6 +185,9 @@ def c04(r):
             cls[e["id"]] = e["cls"]
         if k == "gen":
             seen[e["deme"]] += [fit for _, fit in e["inds"]]
+        elif k == "call" and e["deme"] is None:
+            # an evaluation the harness made itself through the wrapper before building the tree (spec pre_evals): no engine observed it
+            allcalls.add(key(e["v"]))
         elif k == "call" and cls.get(e["deme"]) != "LocalDeme":
             allcalls_nonlocal.append(e["v"])
             allcalls.add(key(e["v"]))
